@@ -192,3 +192,8 @@ Example C14_ex_from_mdspan :
   c14_mdarray_from_mdspan 0 C14_Left [10; 11; 12; 13; 14; 15; 16] 1 (C14_Mapping C14_Left [2; 3] [])
   = Some ([11; 12; 13; 14; 15; 16], C14_Mapping C14_Left [2; 3] []).
 Proof. exact c14_ex_from_mdspan. Qed.
+Example C14_ex_convert_cross :
+  c14_spec_compatible [Some 2; None] (c14_extents_list [None; Some 4] [2]) /\
+  c14_extents_list [Some 2; None] (c14_extents_convert [Some 2; None] [None; Some 4] [2]) = [2; 4] /\
+  c14_extents_list [None; None; Some 4] (c14_extents_convert [None; None; Some 4] [None; Some 3; None] [2; 4]) = [2; 3; 4].
+Proof. exact c14_ex_convert_cross. Qed.
